@@ -118,23 +118,41 @@ func runHarnessOpt(ld *Loaded, name string, spec *HarnessSpec, tier string, debu
 			params[k] = v
 		}
 	}
-	ex, err := sx.NewExplorer(ld.Prog, ld.Pkg, fn, lim, params, backendsFor(spec, lim.QueryMS)...)
+	mk := func() (*sx.Explorer, error) {
+		ex, err := sx.NewExplorer(ld.Prog, ld.Pkg, fn, lim, params, backendsFor(spec, lim.QueryMS)...)
+		if err != nil {
+			return nil, err
+		}
+		ex.Debug = debug
+		ex.Seed = seed
+		ex.ConcN = concN
+		if spec.Mode == "conc" {
+			ex.Mode = "conc"
+		}
+		if p := os.Getenv("GOSMT_SMTLOG"); p != "" {
+			ex.S.SetLog(p + "." + name + ".smt2")
+		}
+		return ex, nil
+	}
+	workers := spec.Workers
+	if workers == 0 {
+		workers = 16
+	}
+	if debug {
+		workers = 1
+	}
+	res, err := sx.ExploreParallel(mk, workers, globalTokens, lim)
 	if err != nil {
 		return nil, err
 	}
-	ex.Debug = debug
-	ex.Seed = seed
-	ex.ConcN = concN
-	if spec.Mode == "conc" {
-		ex.Mode = "conc"
-	}
-	if p := os.Getenv("GOSMT_SMTLOG"); p != "" {
-		ex.S.SetLog(p + "." + name + ".smt2")
-	}
-	res := ex.Run()
 	res.Harness = name
+	if len(res.Concordance) > concN {
+		res.Concordance = res.Concordance[:concN]
+	}
 	return res, nil
 }
+
+var globalTokens = sx.NewTokens(16)
 
 func printResult(res *sx.Result) {
 	fmt.Printf("== %s: paths=%d exhausted=%v steps=%d queries=%d (sat %d, unsat %d, unknown %d, errors %d) solver=%.1fs wall=%.1fs terms=%d\n",
@@ -152,7 +170,7 @@ func printResult(res *sx.Result) {
 	sort.Strings(ids)
 	for _, id := range ids {
 		o := res.Obligations[id]
-		fmt.Printf("   ob %-34s reached=%d concrete=%d unsat=%d VIOLATED=%d unknown=%d  %s\n", id, o.Reached, o.Concrete, o.Discharged, o.Violated, o.Unknown, o.Pos)
+		fmt.Printf("   ob %-34s reached=%d concrete=%d unsat=%d VIOLATED=%d unknown=%d %.1fs %s\n", id, o.Reached, o.Concrete, o.Discharged, o.Violated, o.Unknown, o.Seconds, o.Pos)
 	}
 	var cs []string
 	for id := range res.CoverDecl {
